@@ -109,6 +109,15 @@ def generate(rng, tier):
         cases.append(Case("z%d" % n, lines, {"kind": kind, "nul": nul, "len": len(text), "via": via}))
         n += 1
 
+    # streams that cannot be read at all (a directory opened for reading, a stream opened for writing): an error return,
+    # not the end of the process, and the context goes on working
+    for k in (0, 1):
+        for flags in (0, COMMENTS | IGNORE_UNKNOWN):
+            cdir = "%s/z%d" % (root, n)
+            lines = schema_lines(base) + ["CWD " + hx(cdir), "X 0 %d" % flags, "PB 0 " + hx(b"i = 3\n"), "PSE 0 %d" % k, "D 0", "PSE 0 %d" % (1 - k),
+                                          "PS 0 " + hx(b"i = 4 s = after\n"), "D 0", "PR 0", "F 0"]
+            cases.append(Case("z%d" % n, lines, {"kind": "unreadable_stream", "nul": False, "len": 0, "via": "PSE"}))
+            n += 1
     for kind, text in shapes(tier):
         for flags in (0, COMMENTS | IGNORE_UNKNOWN):
             mk(kind, text, base, flags, "PB" if b"\x00" not in text else "PS")
@@ -133,7 +142,7 @@ def generate(rng, tier):
 
 
 def project(lines, case):
-    if case.meta["nul"]:
+    if case.meta.get("nul"):
         # C strings end at NUL in many places of the scanner: unspecified, only hazards are compared
         return [l for l in lines if l.startswith("H ")]
     return [l for l in lines if not (l.startswith("G ") or l.startswith("I ") or l.startswith("T "))]
@@ -144,6 +153,13 @@ def oracle(case, il, ctx):
     if hz:
         return "the process was hurt: " + "; ".join(hz[:3])
     rcs = [l for l in il if l.startswith("R ")]
+    if case.meta.get("kind") == "unreadable_stream" or any(l.startswith("PSE ") for l in case.lines):
+        # X, PB, PSE, PSE, PS, F: the two unreadable streams are refused with an error return, the parses around them succeed
+        if len(rcs) < 6 or rcs[1] != "R 0" or rcs[4] != "R 0":
+            return "the context was not usable around a stream that cannot be read"
+        if rcs[2] != "R 1" or rcs[3] != "R 1":
+            return "a stream that cannot be read was not refused with a parse error: %s %s" % (rcs[2], rcs[3])
+        return None if any(l.startswith("B ") for l in il) else "printing afterwards produced nothing"
     if len(rcs) < 4:
         return "the context was not usable afterwards (missing results)"
     if rcs[1] not in ("R 0", "R 1", "R -1"):
@@ -156,14 +172,14 @@ def oracle(case, il, ctx):
 
 
 def nontrivial(case, model_lines):
-    if case.meta["kind"] in ("bytes", "random", "mutated"):
-        return any(l in ("R 1", "R -1") for l in model_lines) or case.meta["len"] > 20
+    if case.meta.get("kind") in ("bytes", "random", "mutated"):
+        return any(l in ("R 1", "R -1") for l in model_lines) or case.meta.get("len", 0) > 20
     return True
 
 
 def stats(case, model_lines):
-    s = {"kind_" + case.meta["kind"]: 1, "via_" + case.meta["via"]: 1}
-    if case.meta["nul"]:
+    s = {"kind_" + case.meta.get("kind", "corpus"): 1, "via_" + case.meta.get("via", "corpus"): 1}
+    if case.meta.get("nul"):
         s["nul_not_compared"] = 1
     for l in model_lines[1:3]:
         if l.startswith("R "):
